@@ -105,7 +105,10 @@ def sig(fx):
     if fx.receiver:
         ps.append(fx.receiver)
     for i, t in enumerate(fx.params):
-        ps.append('p%d: %s' % (i, t))
+        if t.startswith('@'):
+            ps.append(t[1:])  # written out pattern: type
+        else:
+            ps.append('p%d: %s' % (i, t))
     ret = (' -> ' + fx.ret) if fx.ret else ''
     kw = 'pub async fn' if fx.macro == 'async' else 'pub fn'
     return '%s %s(%s)%s' % (kw, fx.name, ', '.join(ps), ret)
@@ -158,6 +161,9 @@ def families(macro):
     ]
     for recv, ps in shapes:
         out.append(Fx(macro, [], ps, recv, 'i32', 'K'))
+    # destructuring parameters: the pattern as a whole is one key part
+    out.append(Fx(macro, [], ['@(a, b): (i32, i32)', 'i32'], None, 'i32', 'K'))
+    out.append(Fx(macro, [], ['u8', '@(s, (n, m)): (String, (u8, u8))'], '&self', 'i32', 'K'))
     # L/T/M/F: values x policies
     for i, lim in enumerate(['1', '3', '1000']):
         for pol in POLICIES:
@@ -183,6 +189,12 @@ def families(macro):
         out.append(Fx(macro, A(('scope', '"thread"')), ['i32'], '&self', 'i32', 'S'))
         out.append(Fx(macro, A(('scope', '"thread"'), ('max_memory', '"2KB"')), ['i32'], None, 'String', 'S'))
         out.append(Fx(macro, A(('scope', '"thread"'), ('ttl', '1')), ['i32'], None, 'Result<i32, String>', 'S'))
+        # thread scope combined with every other attribute kind (nothing may silently turn it global)
+        out.append(Fx(macro, A(('scope', '"thread"'), ('tags', '["tag:ts"]')), ['i32'], None, 'i32', 'S'))
+        out.append(Fx(macro, A(('events', '["evt:ts"]'), ('scope', '"thread"'), ('dependencies', '["dep:ts"]')), ['i32'], None, 'i32', 'S'))
+        out.append(Fx(macro, A(('scope', '"thread"'), ('name', '"custom_ts"'), ('limit', '3'), ('policy', '"lfu"')), ['i32'], None, 'i32', 'S'))
+        out.append(Fx(macro, A(('scope', '"thread"'), ('cache_if', 'keep_a'), ('invalidate_on', 'stale_a'), ('frequency_weight', '1.5'), ('policy', '"tlru"')), ['i32'], None, 'i32', 'S'))
+        out.append(Fx(macro, A(('scope', '"global"'), ('tags', '["tag:gs"]'), ('name', '"custom_gs"')), ['i32'], None, 'i32', 'S'))
     # N: names
     out.append(Fx(macro, A(('name', '"custom_n1"')), ['i32'], None, 'i32', 'N'))
     out.append(Fx(macro, A(('name', '"custom_n2"'), ('tags', '["tag:n2"]')), ['i32'], None, 'i32', 'N'))
